@@ -16,11 +16,11 @@ func runC06(c *Ctx) {
 	c.ruleLifecycleHelpers("P2-lifecycle-helpers")
 	c.Min("P2-lifecycle-helpers", 7)
 	c.ruleConstruction("P3-private-context")
-	c.Min("P3-private-context", 5)
+	c.Min("P3-private-context", 4)
 	fns := c.engineExecFns()
 	c.ruleM1("P4-fresh-result-map", fns)
 	c.Min("P4-fresh-result-map", 21)
 	c.ruleM5("P4-map-written-only-by-addResult")
 	c.ruleOwnDc("P5-own-data-context", fns)
-	c.Min("P5-own-data-context", 37)
+	c.Min("P5-own-data-context", 25)
 }
